@@ -323,11 +323,11 @@ func (e *EdgeQuery) Distance(target distanceTarget) s1.ChordAngle {
 //
 //	query.IsDistanceLess(target, limit.Successor())
 func (e *EdgeQuery) IsDistanceLess(target distanceTarget, limit s1.ChordAngle) bool {
-	opts := e.opts
-	opts = opts.MaxResults(1).
+	opts := *e.opts
+	opts.MaxResults(1).
 		DistanceLimit(limit).
 		MaxError(s1.StraightChordAngle)
-	return !e.findEdge(target, opts).IsEmpty()
+	return !e.findEdge(target, &opts).IsEmpty()
 }
 
 // IsDistanceGreater reports if the distance to target is greater than limit.
@@ -401,8 +401,13 @@ func sortAndUniqueResults(results []EdgeQueryResult) []EdgeQueryResult {
 // This is primarily to ease the usage of a number of the methods in the DistanceTargets
 // and in EdgeQuery.
 func (e *EdgeQuery) findEdge(target distanceTarget, opts *queryOptions) EdgeQueryResult {
-	opts.MaxResults(1)
-	e.findEdges(target, opts)
+	// Work on a copy so that the options configured by the user (shared with
+	// e.opts by pointer) are not modified, and restore them afterwards.
+	saved := e.opts
+	one := *opts
+	one.MaxResults(1)
+	e.findEdges(target, &one)
+	e.opts = saved
 	if len(e.results) > 0 {
 		return e.results[0]
 	}
